@@ -304,6 +304,69 @@ class FileCheck:
             if pd[1] != len(c.tracking):
                 self.bad("particles", "number of tracked particles", observed=pd, expected=len(c.tracking))
 
+
+    def wake(self):
+        """the stored wake potential is the convolution of the stored bunch profile with the stored impedance
+        (C06's formula: pad at bucket*spacing, half-spectrum product, FFTW's c2r convention, read back at the bunch's
+        position) times the absolute scale Ib*dt*c/(bl*dE_cell)/N implied by /Info/Parameters - checked at the
+        first, a middle and the LAST record (the one the final block writes)"""
+        c, h, d = self.c, self.h, self.d
+        if not c.has_wake() or "/WakePotential/data" not in h.ds or "/Impedance/data/real" not in h.ds:
+            return
+        n, nb = c.n, c.nb()
+        zre, zim = h.values("/Impedance/data/real"), h.values("/Impedance/data/imag")
+        nh = len(zre)
+        N = 2 * nh
+        prof = hc.chunks(h.values("/BunchProfile/data"), n)
+        wp = hc.chunks(h.values("/WakePotential/data"), n)
+        nrec = len(self.tags[0])
+        if len(wp) != nrec * nb or nh < 2:
+            return
+        buckets = [int(b) for b in h.values("/Info/BucketNumbers")]
+        sp = d["spacing_bins"] if len(c.currents) > 1 else 0
+        if any(b * sp + n > N for b in buckets):
+            return                      # padded buffer too short for the pattern: C17's finding, nothing to compare
+        scale = hc.f32(hc.f32(d["Ib"] * d["dt"] * hc.C_LIGHT / d["bl"] / (float(self.dp) * d["sE"] * d["E0"])) / N)
+        cs = [math.cos(2 * math.pi * k / N) for k in range(N)]
+        sn = [math.sin(2 * math.pi * k / N) for k in range(N)]
+        recs = sorted(set([0, nrec // 2, nrec - 1]))
+        if N > 2048:
+            recs = [nrec - 1]
+        for r in recs:
+            cells = [(buckets[b] * sp + x, prof[r * nb + b][x]) for b in range(nb) for x in range(n) if prof[r * nb + b][x] != 0]
+            if not cells:
+                continue
+            xr, xi = [0.0] * nh, [0.0] * nh
+            for j in range(nh):
+                fr = fi = 0.0
+                for (u, p) in cells:
+                    k = (u * j) % N
+                    fr += p * cs[k]
+                    fi -= p * sn[k]
+                xr[j] = zre[j] * fr - zim[j] * fi
+                xi[j] = zre[j] * fi + zim[j] * fr
+            step = 1 if N <= 1024 else 3
+            exp, got = [], []
+            for b in range(nb):
+                for x in range(0, n, step):
+                    i = buckets[b] * sp + x
+                    s = xr[0]
+                    for j in range(1, nh):
+                        k = (i * j) % N
+                        s += 2 * (xr[j] * cs[k] - xi[j] * sn[k])
+                    exp.append(scale * s)
+                    got.append(wp[r * nb + b][x])
+            mx = max(abs(v) for v in exp) if exp else 0.0
+            if mx == 0:
+                continue
+            for e, g in zip(exp, got):
+                if abs(g - e) > 2e-3 * abs(e) + 3e-4 * mx:
+                    self.bad("wake", "stored wake potential is not the convolution of the stored bunch profile with the stored impedance "
+                             "at the absolute scale implied by the stored parameters (record %d of %d)" % (r, nrec), observed=g, expected=e,
+                             final_record=(r == nrec - 1), multibunch=nb > 1)
+                    break
+            self.nontrivial = True
+
     def nyquist(self, P_, S_, W):
         """estimate of the Nyquist bin of the spectrum from the stored profile and the last stored bins"""
         nmax = 2 * W
@@ -364,6 +427,7 @@ def check_cfg(ctx, tg, c, dis, keep=None):
         fc.shape()
         fc.axes_units()
         fc.contents()
+        fc.wake()
         ctx.case_done(c.cid, fc.nontrivial)
         ctx.count("imp:" + getattr(c, "imp", "?"))
         ctx.count("nb:%d" % c.nb())
